@@ -135,24 +135,51 @@ Definition ts_case_ok (c : N * N * N * N * N * list N) : bool :=
                         | Some (s, k, i) => [1; s; k; i]
                         end) ob.
 
-(** request sequences with restarts (snapshot data of the running cluster recovered into a
-    cluster that still has the initial configuration) *)
-Inductive sreq := SReq (r : req) | SRestart.
-Fixpoint sseq_ok (init : members) (c : cluster) (l : list (sreq * N * list N * list N)) : bool :=
+(** createSnapshotData: the member lists of the snapshot are Members.ToArray() of the applied
+    and of the removed set: ALL values of the id-indexed map, sorted by name.  (The name index
+    of the removed set can hold fewer members: a name may be used again by a member with a fresh
+    id after its first holder was removed.) *)
+Definition snapshot_data (c : cluster) : members * members := (msort (fst c), msort (snd c)).
+Fixpoint dup_names (l : members) : bool :=
+  match l with [] => false | x :: tl => existsb (fun y => m_name y =? m_name x) tl || dup_names tl end.
+
+(** request sequences with snapshot round trips: the snapshot data of the running cluster is
+    recovered into (mode 0) a cluster that still has the initial configuration, (1) an empty
+    cluster, (2) a lagging follower: the cluster as it was at the last mark.  The node goes on
+    with the recovered cluster. *)
+Inductive sreq := SReq (r : req) | SMark | SRestart (mode : N).
+Definition restart_target (init : members) (lag : cluster) (mode : N) : cluster :=
+  if mode =? 0 then (init, []) else if mode =? 1 then ([], []) else lag.
+Definition sstep (init : members) (st : cluster * cluster) (r : sreq) : cluster * cluster :=
+  let '(c, lag) := st in
+  match r with
+  | SReq r => (apply_req c r, lag)
+  | SMark => (c, c)
+  | SRestart mode =>
+      let sd := snapshot_data c in (recover (restart_target init lag mode) (fst sd) (snd sd), lag)
+  end.
+Fixpoint sseq_ok (init : members) (st : cluster * cluster) (l : list (sreq * N * list N * list N)) : bool :=
   match l with
   | [] => true
-  | (SReq r, code, ap, rm) :: tl =>
-      let c' := apply_req c r in
-      (verr_code (req_code c r) =? code) && Membership.list_eqbN (nsort (map m_id (fst c'))) ap
-      && Membership.list_eqbN (nsort (map m_id (snd c'))) rm && sseq_ok init c' tl
-  | (SRestart, code, ap, rm) :: tl =>
-      let eq := members_equal (msort init) (msort (fst c)) && members_equal (msort []) (msort (snd c)) in
-      let c' := recover (init, []) (fst c) (snd c) in
-      (code =? (if eq then 10 else 0)) && Membership.list_eqbN (nsort (map m_id (fst c'))) ap
-      && Membership.list_eqbN (nsort (map m_id (snd c'))) rm && sseq_ok init c' tl
+  | (r, code, ap, rm) :: tl =>
+      let c := fst st in
+      let st' := sstep init st r in
+      let c' := fst st' in
+      (match r with
+       | SReq q => verr_code (req_code c q) =? code
+       | SMark => true
+       | SRestart mode =>
+           let t := restart_target init (snd st) mode in
+           let eq := members_equal (msort (fst t)) (msort (fst c)) && members_equal (msort (snd t)) (msort (snd c)) in
+           (* two removed members with one name: the order sort.Sort gives them is not determined,
+              so isAllMembersEqual may answer either way (both branches yield the same id sets) *)
+           (code =? (if eq then 10 else 0)) || (dup_names (snd c) && ((code =? 0) || (code =? 10)))
+       end)
+      && Membership.list_eqbN (nsort (map m_id (fst c'))) ap
+      && Membership.list_eqbN (nsort (map m_id (snd c'))) rm && sseq_ok init st' tl
   end.
 Definition sscase : Type := members * list (sreq * N * list N * list N).
-Definition sscase_ok (s : sscase) : bool := sseq_ok (fst s) (fst s, []) (snd s).
+Definition sscase_ok (s : sscase) : bool := sseq_ok (fst s) ((fst s, []), (fst s, [])) (snd s).
 
 (** proposal slot cases *)
 Inductive pop := PSubmit (c : N) | PMake (c : N) | PAfter (c : N) | PTake.
